@@ -48,6 +48,8 @@ structure PipeCfg where
   b : Int
   drop : Option (Nat × Nat)
   target : Nat
+  /-- a second named transform chained after the first (its own runner): map a₂·x + b₂ -/
+  chain2 : Option (Int × Int) := none
 
 def parsePipe (j : Json) : Except String PipeCfg := do
   let a ← Driver.getInt j "a"
@@ -57,7 +59,11 @@ def parsePipe (j : Json) : Except String PipeCfg := do
     | .error _ => pure none
     | .ok .null => pure none
     | .ok d => do pure (some (← Driver.getNat d "m", ← Driver.getNat d "r"))
-  return ⟨a, b, drop, target⟩
+  let chain2 ← match j.getObjVal? "chain2" with
+    | .error _ => pure none
+    | .ok .null => pure none
+    | .ok d => do pure (some (← Driver.getInt d "a", ← Driver.getInt d "b"))
+  return ⟨a, b, drop, target, chain2⟩
 
 /-- the user function of the chain: rows ↦ a·row + b -/
 def PipeCfg.g (c : PipeCfg) (rows : List Int) : List Int := rows.map fun x => c.a * x + c.b
@@ -101,14 +107,15 @@ def runSource {R : Recoverable (List Int)} (it : R.It) (ops : List Op) (final : 
       ("err", Json.null)]
 
 def runPipe {R : Recoverable (List Int)} {T : Type} (P : PipeDef (List Int) (List Int) T Int (Int × Nat) (Int × Nat))
-    (V : RowView (List Int) (List Int) T Int) (it : R.It) (ops : List Op) (final : Nat) : Json :=
+    (V : RowView (List Int) (List Int) T Int) (it : R.It) (ops : List Op) (final : Nat)
+    (aggOf : PipeIt R (List Int) T (Int × Nat) → Int × Nat := fun p => P.m.result p.agg) : Json :=
   match PipeRun.run R P V (PipeRun.init R P it) (ops ++ [.take final]) with
   | .error e => errObj e
   | .ok r => Json.mkObj [
       ("log", Json.arr (r.log.map outsJson).toArray),
       ("delivered", outsJson (Ev.delivered r.trace)),
       ("lost", rowsJson (Ev.lostRows r.trace)),
-      ("agg", aggJson (P.m.result r.p.agg)),
+      ("agg", aggJson (aggOf r.p)),
       ("err", Json.null)]
 
 def runPar {R : Recoverable (List Int)} (c : PipeCfg) (cursors : List R.It) (sched : List ParOp) : Json :=
@@ -132,7 +139,15 @@ def withPipe {R : Recoverable (List Int)} (pipe : Option PipeCfg) (it : R.It) (o
   | none => runSource (R := R) it ops final
   | some c =>
     if c.target = 0 then
-      runPipe (R := R) ⟨Trans.ofFn c.f, sumCount, id⟩ (rowViewFn c) it ops final
+      match c.chain2 with
+      | none => runPipe (R := R) ⟨Trans.ofFn c.f, sumCount, id⟩ (rowViewFn c) it ops final
+      | some (a2, b2) =>
+        -- runner "a" (with the aggregate) feeds runner "b"; the chained iterator reports a's aggregate
+        let Pa : PipeDef (List Int) (List Int) Unit Int (Int × Nat) (Int × Nat) := ⟨Trans.ofFn c.f, sumCount, id⟩
+        let c2 : PipeCfg := ⟨a2, b2, none, 0, none⟩
+        let Pb : PipeDef (List Int) (List Int) Unit Int (Int × Nat) (Int × Nat) := ⟨Trans.ofFn c2.f, sumCount, id⟩
+        runPipe (R := pipeRec R Pa) Pb (rowViewFn c2) (PipeIt.fresh R Pa it sumCount.empty) ops final
+          (fun p => sumCount.result p.src.agg)
     else
       runPipe (R := R) ⟨Trans.chunk c.g c.target, sumCount, id⟩ (rowView c) it ops final
 
@@ -164,7 +179,7 @@ def handle (j : Json) : Except String Json := do
       | .ok it => return withPipe (R := iterRec data) pipe it ops final
   else
     let sched ← (← Driver.getArr j "ops").toList.mapM parseParOp
-    let c := pipe.getD ⟨1, 0, none, 0⟩
+    let c := pipe.getD ⟨1, 0, none, 0, none⟩
     if kind == "seq" then
       let chain ← (← Driver.getArr src "chain").toList.mapM parseCfg
       match chain.foldlM Src.shard (Src.root data.length) >>= (shardsOf · threads) with
